@@ -8,13 +8,16 @@ from hypothesis import strategies as st
 
 from lib import runner, stateful
 
-POOL = ["a", "A", "b", "B", "ab", "Ab", "aB", "c", "x y", "x_y", "Z9", "z9", "é", "É", "t1", "T1"]
+POOL = ["a", "A", "b", "B", "ab", "Ab", "aB", "c", "x y", "x_y", "Z9", "z9", "é", "É", "t1", "T1",
+        # letters whose casefold() differs from lower(): the documented rule is str.lower() on both sides
+        "Straße", "STRASSE", "strasse", "ſ", "s", "ς", "σ", "Σ"]
+PLAIN = [i for i, l in enumerate(POOL) if l.isascii() and l.isalnum()]
 
 CONFIG = {
     "shards": {"quick": 8, "thorough": 16},
     "budget_s": {"quick": 120, "thorough": 1500},
     "rule": ("Hypothesis rule-based state machine over TaxonNamespace operations (add/new/require/remove/discard/"
-             "del/sort/reverse/clear/relabel/toggle-mutable/copy routes) with labels from a 16-label pool containing "
+             "del/sort/reverse/clear/relabel/toggle-mutable/copy routes) with labels from a 24-label pool containing "
              "duplicates and case variants; after every step the list/bit reference model is compared (bits, bitmask "
              "<-> taxa, bitstring, newick rendering, all lookup functions under the three case settings). "
              "Non-trivial = history in which a removal, sort, reverse, clear or copy that changed/depended on state is "
@@ -51,6 +54,8 @@ RULES = {
     "clear": with_probe({"really": st.integers(0, 3)}),
     "relabel": with_probe({"i": st.integers(0, 30), "l": LBL}),
     "toggle_mutable": with_probe({}),
+    "read_tree": with_probe({"ls": st.lists(st.sampled_from(PLAIN), min_size=2, max_size=4, unique=True),
+                             "how": st.sampled_from(["Tree.get", "TreeList.get", "yield_from_files"])}),
     "copy": with_probe({"route": st.sampled_from(["copy", "deepcopy", "ctor", "clone0", "clone2"]),
                         "switch": st.booleans()}),
 }
@@ -263,6 +268,47 @@ class Interp(object):
             t.label = POOL[a["l"]]
         elif op == "toggle_mutable":
             ns.is_mutable = not ns.is_mutable
+        elif op == "read_tree":
+            # a reader is handed the namespace: known labels resolve to members, unknown ones join (only if mutable)
+            if self.cs:
+                return  # readers default to case-insensitive label matching; only exercised on such namespaces
+            labels = []
+            for l in a["ls"]:
+                if POOL[l].lower() not in [x.lower() for x in labels]:
+                    labels.append(POOL[l])   # one occurrence per taxon in a tree
+            if len(labels) < 2:
+                return
+            unknown = []
+            for l in labels:
+                if not self.matches(l, None) and l.lower() not in [u.lower() for u in unknown]:
+                    unknown.append(l)
+            text = "(" + ",".join(labels) + ");"
+            import io
+            try:
+                if a["how"] == "Tree.get":
+                    d.Tree.get(data=text, schema="newick", taxon_namespace=ns)
+                elif a["how"] == "TreeList.get":
+                    d.TreeList.get(data=text, schema="newick", taxon_namespace=ns)
+                else:
+                    list(d.Tree.yield_from_files([io.StringIO(text)], schema="newick", taxon_namespace=ns))
+                self.V(ns.is_mutable or not unknown, "immutable_never_grows",
+                       lambda: "reading %r into an immutable namespace added members: now %r" % (text, [t.label for t in ns]))
+            except Imm:
+                self.V((not ns.is_mutable) and bool(unknown), "unexpected_immutable_error")
+            known_ids = set(id(m[0]) for m in self.model)
+            newcomers = [t for t in ns if id(t) not in known_ids]
+            if ns.is_mutable:
+                self.V(sorted(t.label.lower() for t in newcomers) == sorted(u.lower() for u in unknown), "read_adds_exactly_unknown_labels",
+                       lambda: "text %r: new members %r, unknown labels %r" % (text, [t.label for t in newcomers], unknown))
+            else:
+                self.V(not newcomers, "immutable_never_grows",
+                       lambda: "immutable namespace gained %r by reading %r" % ([t.label for t in newcomers], text))
+            for t in newcomers:
+                self._joined(t)
+            if newcomers:
+                ctx.cls("read_tree:added_members")
+            if not ns.is_mutable:
+                ctx.cls("read_tree:immutable_namespace")
         elif op == "copy":
             route = a["route"]
             if route == "copy":
